@@ -24,6 +24,7 @@ class Finding(object):
     self.message = message
     self.loc = loc
     self.facts = facts or {}
+    self.instances = []   # configuration points at which it was observed
 
   def key(self, prop):
     return (prop, self.rule, self.unit, self.construct)
@@ -31,7 +32,8 @@ class Finding(object):
   def as_dict(self, prop):
     return {"property": prop, "rule": self.rule, "unit": self.unit,
             "construct": self.construct, "message": self.message,
-            "loc": self.loc, "facts": self.facts}
+            "loc": self.loc, "facts": self.facts,
+            "instances": self.instances}
 
 
 class Report(object):
@@ -59,28 +61,32 @@ class Report(object):
     self.discharged += n
     self.rule_counts[rule] = self.rule_counts.get(rule, 0) + n
 
-  def fail(self, rule, unit, construct, message, loc=None, facts=None):
+  def fail(self, rule, unit, construct, message, loc=None, facts=None,
+           instance=None):
+    """Records a violated obligation.  `instance` names the configuration
+    point; the same (rule, unit, construct) seen at several points is one
+    finding carrying all its instances."""
     self.obligations += 1
     self.rule_counts[rule] = self.rule_counts.get(rule, 0) + 1
     f = Finding(rule, unit, construct, message, loc, facts)
     k = f.key(self.prop)
     if k in self._seen:
-      # same construct reached through another configuration point: count
-      # the obligation, keep one finding
       for g in self.findings:
         if g.key(self.prop) == k:
-          g.facts.setdefault("also_at", [])
-          if len(g.facts["also_at"]) < 5 and facts:
-            g.facts["also_at"].append(facts.get("config", ""))
+          if instance is not None and instance not in g.instances:
+            g.instances.append(instance)
       return
     self._seen.add(k)
+    if instance is not None:
+      f.instances.append(instance)
     self.findings.append(f)
 
-  def check(self, cond, rule, unit, construct, message, loc=None, facts=None):
+  def check(self, cond, rule, unit, construct, message, loc=None, facts=None,
+            instance=None):
     if cond:
       self.ok(rule)
     else:
-      self.fail(rule, unit, construct, message, loc, facts)
+      self.fail(rule, unit, construct, message, loc, facts, instance)
     return cond
 
   def sample(self, obj, limit=12):
@@ -143,6 +149,20 @@ def run_check(prop, tier, fn, level="other", technique=""):
   for f in rep.findings:
     k = f.key(prop)
     if k in known_idx:
+      listed = known_idx[k].get("instances")
+      if listed is not None and f.instances:
+        extra = [i for i in f.instances if i not in listed]
+        if extra:
+          # the known defect now shows at configuration points that were not
+          # listed: that part is a new violation
+          g = Finding(f.rule, f.unit, f.construct,
+                      f.message + " (at configuration points not listed in "
+                      "known_findings.json)", f.loc, dict(f.facts))
+          g.instances = extra
+          violations.append(g)
+          f.instances = [i for i in f.instances if i in listed]
+          if not f.instances:
+            continue
       known_hits.append((f, known_idx[k]))
     else:
       violations.append(f)
@@ -162,8 +182,12 @@ def run_check(prop, tier, fn, level="other", technique=""):
     d["repo"] = repo_root()
     with open(path, "w") as fh:
       json.dump(d, fh, indent=1, sort_keys=True, default=str)
-    print("FINDING %s %s %s at %s: %s" %
-          (f.rule, f.unit, f.construct, f.loc, f.message))
+    print("FINDING %s %s %s at %s: %s%s" %
+          (f.rule, f.unit, f.construct, f.loc, f.message,
+           (" [instances: %s%s]" % ("; ".join(f.instances[:4]),
+                                    " ... %d in all" % len(f.instances)
+                                    if len(f.instances) > 4 else ""))
+           if f.instances else ""))
     print("VIOLATION property=%s replay=%s" % (prop, path))
   rep.extra["known_findings_matched"] = [
       "%s %s %s" % (f.rule, f.unit, f.construct) for f, _ in known_hits]
